@@ -113,11 +113,19 @@ class Run(object):
         self.lastwrite[w] = 'C'
         self.out.probe('call_path_' + path)
 
-    def readgv(self, w):
-        v = self.check.mod.lib.gv
-        seen = self.check.mod.lib.get_gv_seen()      # thread-local in the helper; this call restores/saves errno too
-        if v != 7:
-            self.fail('C22.1', 'lib.gv reads %r' % (v,))
+    def readgv(self, w, how='read', val=0):
+        lib = self.check.mod.lib
+        if how == 'write':
+            lib.gv = val
+            self.check.gv_value = val
+            v = val
+        elif how == 'addr':
+            v = self.check.mod.ffi.addressof(lib, 'gv')[0]
+        else:
+            v = lib.gv
+        seen = lib.get_gv_seen()      # thread-local in the helper; this call restores/saves errno too
+        if v != self.check.gv_value:
+            self.fail('C22.1', 'lib.gv reads %r, expected %r' % (v, self.check.gv_value))
         if seen != self.S[w]:
             self.fail('C22.1', 'thread %d: the fetch function of global variable gv saw errno %d, expected %d'
                       % (w, seen, self.S[w]))
@@ -138,7 +146,7 @@ class Run(object):
                 self.probe(w, st[1], st[2])
             elif k == 'gv':
                 if self.S[w] + 1000 <= INT_MAX and self.S[w] >= -2 ** 31:
-                    self.readgv(w)
+                    self.readgv(w, st[1] if len(st) > 1 else 'read', st[2] if len(st) > 2 else 0)
             elif k == 'pt':
                 self.sched.point('pt')
             elif k == 'cb' and depth < 2:
@@ -298,6 +306,7 @@ class C22(core.Check):
         self.addr_probe = self.mod.ffi.addressof(self.mod.lib, 'probe')
         self.active = variant
         self.next_fid = 0
+        self.gv_value = 7
 
     # ------------------------------------------------------------------
     def gen_steps(self, rng, n, depth):
@@ -316,6 +325,8 @@ class C22(core.Check):
             elif k == 'cb':
                 out.append(['cb', rng.choice(['cb_i', 'cb_m', 'cb_dl', 'xp']), rng.choice(VALUES[:10]),
                             self.gen_steps(rng, rng.randint(0, 4), depth + 1), rng.chance(0.12)])
+            elif k == 'gv':
+                out.append(['gv', rng.choice(['read', 'read', 'write', 'addr']), rng.randint(-100, 100)])
             else:
                 out.append([k])
         return out
